@@ -89,7 +89,28 @@ fn tracker<T: Elem>(c: &Value) -> Value {
 fn split<T: Elem>(c: &Value) -> Value {
     let (data, e) = data3(c);
     let (m, n, p) = (data.len(), data[0].len(), data[0].get(0).map(|r| r.len()).unwrap_or(0));
-    let a = Array3::<T>::from_shape_fn((m, n, p), |(i, j, k)| T::mk(data[i][j][k], e));
+    // the logical array is always [chain][draw][param]; "layout" chooses how it is stored in memory
+    let layout = c["layout"].as_str().unwrap_or("std");
+    let a: Array3<T> = match layout {
+        "perm" => {
+            // draw-major storage, viewed with permuted axes
+            let b = Array3::<T>::from_shape_fn((n, m, p), |(j, i, k)| T::mk(data[i][j][k], e));
+            b.permuted_axes([1, 0, 2])
+        }
+        "fortran" => {
+            use ndarray::ShapeBuilder;
+            let mut b = Array3::<T>::from_elem((m, n, p).f(), T::mk(0, 0));
+            for i in 0..m {
+                for j in 0..n {
+                    for k in 0..p {
+                        b[[i, j, k]] = T::mk(data[i][j][k], e);
+                    }
+                }
+            }
+            b
+        }
+        _ => Array3::<T>::from_shape_fn((m, n, p), |(i, j, k)| T::mk(data[i][j][k], e)),
+    };
     let f = a.mapv(|x| x.to_f32().unwrap());
     let (rhat, ess) = split_rhat_mean_ess(f.view());
     let rs = RunStats::from(a.view());
